@@ -379,8 +379,11 @@ class Ctx:
         ev = {'property_id': self.prop, 'tier': self.tier, 'seed': self.seed, 'level': self.level,
               'coverage': cov, 'assumptions': self.assumptions, 'wall_s': round(time.time() - self.t0, 2),
               'violations': nviol}
-        os.makedirs(os.path.join(VERIF, 'evidence'), exist_ok=True)
-        with open(os.path.join(VERIF, 'evidence', '%s.json' % self.prop), 'w') as f:
+        # evidence/<id>.json is only ever written by runs against /repo itself; runs against another tree
+        # (ODAK_REPO=..., used for seeded-change drills) leave their record in the build directory
+        edir = os.path.join(VERIF, 'evidence') if os.path.realpath(REPO) == '/repo' else self.build
+        os.makedirs(edir, exist_ok=True)
+        with open(os.path.join(edir, '%s.json' % self.prop), 'w') as f:
             json.dump(ev, f, indent=1, default=str)
 
 
